@@ -37,6 +37,11 @@ var (
 		"JSIGHT 0.3\nTYPE @o\n  {\"id\": 1}\nGET /a/{id}\n  Path\n    @o\n  200 any\n",
 		"JSIGHT 0.3\nTYPE @o\n  {\"id\": 1}\nURL /a/{id}/{k}\n  Path\n    { // {allOf: \"@o\"}\n      \"k\": \"x\"\n    }\n  GET\n    200 any\n",
 		"JSIGHT 0.3\nTYPE @e empty\nTYPE @y any\nGET /a/{id}\n  Path\n    {\"id\": @y}\n  200 @e\n",
+		"JSIGHT 0.3\nTYPE @cat\n  {\"c\": 1}\nTYPE @dog\n  {\"d\": 2}\nTYPE @base\n  {\n    \"pet\": @cat|@dog,\n    \"other\": @cat  |  @dog\n  }\nTYPE @child\n  { // {allOf: \"@base\"}\n    \"own\": 1\n  }\nGET /pets\n  200 @child\n",
+		"JSIGHT 0.3\nTYPE @b1\n  {\"x\": 1}\nTYPE @b2\n  { // {allOf: \"@b1\"}\n    \"y\": @b1 | @b2 // {optional: true}\n  }\nTYPE @b3\n  { // {allOf: [\"@b2\"]}\n    \"z\": [@b3] // {optional: true}\n  }\nPOST /b\n  Request @b3\n  200 [@b2]\n",
+		"JSIGHT 0.3\nGET /shelves/{id}/books/{ID}\n  200 any\nDELETE /shelves/{id}/books/{ID}\n  204 empty\n",
+		"JSIGHT 0.3\nPOST /cats\n  Request\n    {\"a\": 1}\n  201 any\nPUT /cats/{id}\n  Request any\n  200\n    {\"ok\": true}\n  404 empty\n",
+		"JSIGHT 0.3\nGET /a/{x}/{y}\n  Path\n    {\n      \"x\": 7 // {min: 5}\n    }\n  200 any\nURL /users/{id}/posts/{postId}\n  Path\n    {\"id\": 1}\n  GET\n    200 any\n",
 	}
 )
 
